@@ -2,7 +2,9 @@ package main
 
 import (
 	"fmt"
+	"os"
 	"runtime"
+	"strconv"
 	"sort"
 	"strings"
 	"sync"
@@ -247,6 +249,9 @@ func ruleC01(prog *Program, rep *Report) {
 	results := exploreFrontEnds(prog, jsonFrontEnds, []bool{false}, false)
 	applyParseResults(rep, results, union(kindsAccept, kindsPanic), "A-accept", 18)
 	ruleBOM(prog, rep)
+	if rep.Tier == "thorough" {
+		mutationSweep(prog, rep, union(kindsAccept, kindsPanic), sweepSize())
+	}
 }
 
 // ruleBOM: every public entry skips exactly the three BOM bytes and only
@@ -336,6 +341,9 @@ func ruleC03(prog *Program, rep *Report) {
 	applyParseResults(rep, sres, map[string]bool{"no-arm": true}, "A-noarm", 12)
 	ruleSENFollow(prog, rep)
 	ruleReaderLoops(prog, rep)
+	if rep.Tier == "thorough" {
+		mutationSweep(prog, rep, union(kindsAccept, kindsEvents, kindsPanic), sweepSize())
+	}
 }
 
 func ruleC06(prog *Program, rep *Report) {
@@ -348,6 +356,9 @@ func ruleC06(prog *Program, rep *Report) {
 	sres := exploreFrontEnds(prog, senFrontEnds, []bool{false, true}, true)
 	applyParseResults(rep, sres, map[string]bool{"panic": true, "no-progress": true}, "A-panic", 12)
 	ruleC06Extra(prog, rep)
+	if rep.Tier == "thorough" {
+		mutationSweep(prog, rep, kindsPanic, sweepSize())
+	}
 }
 
 func ruleC07(prog *Program, rep *Report) {
@@ -371,4 +382,14 @@ func ruleC09(prog *Program, rep *Report) {
 	results := exploreFrontEnds(prog, jsonFrontEnds, []bool{false, true}, false)
 	applyParseResults(rep, results, union(kindsPosition, map[string]bool{"accepts-dead": true, "rejects-live": true}), "A-errpos", 18)
 	ruleC09Extra(prog, rep)
+	if rep.Tier == "thorough" {
+		mutationSweep(prog, rep, union(kindsPosition, map[string]bool{"accepts-dead": true, "rejects-live": true}), sweepSize())
+	}
+}
+
+func sweepSize() int {
+	if v, err := strconv.Atoi(os.Getenv("OJGCHECK_SWEEP")); err == nil && v > 0 {
+		return v
+	}
+	return 120
 }
